@@ -224,6 +224,22 @@ def matcher(P, R):
         a = s.ev['args']
         v = a[1]
         okv = v.get('k') == 'cond' and is_field(v['c'], 'class', RULE_REC) and is_field(v['t'], 'class', RULE_REC) and is_field(v['f'], 'name', RULE_REC)
+        if not okv and is_var(v) and v.get('sc') == 'local':
+            # the same choice spelled with a local: it takes the rule's class, and the rule's name only where the class
+            # (or the local holding it) is known to be NULL
+            ds = m.local_defs(v['name'])
+            vals = [(d, d.ev.get('rhs') or d.ev.get('init') or {}) for d in ds]
+            cls = [d for d, x in vals if is_field(x, 'class', RULE_REC)]
+            nms = [d for d, x in vals if is_field(x, 'name', RULE_REC)]
+            oth = [d for d, x in vals if not is_field(x, 'class', RULE_REC) and not is_field(x, 'name', RULE_REC)]
+
+            def null_known(d):
+                return any((is_var(g[0], v['name']) or is_field(g[0], 'class', RULE_REC)) and g[1] == '==' and const_of(g[2]) == 0 for g in m.guards(d.bid))
+
+            def nonnull_or_first(d):
+                gs = m.guards(d.bid)
+                return not any(is_field(g[0], 'class', RULE_REC) and g[1] == '==' and const_of(g[2]) == 0 for g in gs)
+            okv = bool(cls) and bool(nms) and not oth and all(null_known(d) for d in nms) and all(nonnull_or_first(d) for d in cls)
         R.ob('C11.FMT.1', okv, s, 'the class assigned is the rule\'s class value or else its name (%s)' % sx(v), key='class-value')
     # the account is cut at ':' by an exact prefix copy (or used whole)
     cuts = [s for s in m.calls() if s.ev.get('callee') in bnd.SINKS and is_var(root_var(s.ev['args'][0])) and root_var(s.ev['args'][0]).get('sc') == 'local'
